@@ -15,10 +15,10 @@ import (
 )
 
 type Term struct {
-	Op   string       // see constants below
-	Name string       // param/local/global/field name, operator, constant text, type text
-	Obj  interface{}  // identity: *types.Var (field), *ssa.Function / *types.Func (callee), ssa.Value (opaque)
-	Args []*Term      // sub-terms
+	Op   string        // see constants below
+	Name string        // param/local/global/field name, operator, constant text, type text
+	Obj  interface{}   // identity: *types.Var (field), *ssa.Function / *types.Func (callee), ssa.Value (opaque)
+	Args []*Term       // sub-terms
 	Fn   *ssa.Function // owning function for function-scoped leaves (param, local, phi, opaque)
 	str  string
 }
@@ -47,7 +47,7 @@ const (
 	OpClosure = "closure" // closure of Obj
 	OpOpaque  = "opaque"  // anything else (make, range, next, select, ...); unique per SSA value
 	OpLen     = "len"
-	OpRecv    = "recv"    // <-ch
+	OpRecv    = "recv" // <-ch
 )
 
 func (t *Term) String() string {
@@ -224,7 +224,7 @@ type Terms struct {
 	// parameter denotes the argument at that one call site (same idea as fvBind for closures)
 	paramBind map[*ssa.Parameter]ssa.Value
 	inprog    map[ssa.Value]bool
-	cg     *CallGraph // set after the call graph is built; used to decide whether a callee writes through a pointer argument
+	cg        *CallGraph // set after the call graph is built; used to decide whether a callee writes through a pointer argument
 }
 
 type cellInfo struct {
@@ -272,6 +272,7 @@ func (ts *Terms) cell(a *ssa.Alloc) *cellInfo {
 	stores := 0
 	var val ssa.Value
 	escaped := false
+	captured := false
 	var visit func(v ssa.Value, depth int)
 	seen := map[ssa.Value]bool{}
 	visit = func(v ssa.Value, depth int) {
@@ -305,6 +306,7 @@ func (ts *Terms) cell(a *ssa.Alloc) *cellInfo {
 				fn := r.Fn.(*ssa.Function)
 				for i, b := range r.Bindings {
 					if b == v && i < len(fn.FreeVars) {
+						captured = true
 						visit(fn.FreeVars[i], depth+1)
 					}
 				}
@@ -325,6 +327,11 @@ func (ts *Terms) cell(a *ssa.Alloc) *cellInfo {
 	visit(a, 0)
 	if stores == 1 && !escaped {
 		ci.single = val
+		// a captured scalar computed from memory is a snapshot: the closure runs later (maybe
+		// repeatedly), where the same term would read as a fresh load. Keep the cell opaque.
+		if _, basic := val.Type().Underlying().(*types.Basic); basic && captured && termHasLoad(ts.Of(val)) {
+			ci.single = nil
+		}
 	}
 	return ci
 }
@@ -564,7 +571,13 @@ func (ts *Terms) build(v ssa.Value) *Term {
 		return &Term{Op: OpParam, Name: v.Name(), Obj: v, Fn: v.Parent()}
 	case *ssa.FreeVar:
 		if b, ok := ts.fvBind[v]; ok {
-			return ts.Of(b)
+			bt := ts.Of(b)
+			// a captured scalar computed from memory is a snapshot taken when the closure was
+			// made: inside the closure (which runs later, maybe repeatedly) it must not read as
+			// a fresh load of that memory
+			if _, basic := b.Type().Underlying().(*types.Basic); !(basic && termHasLoad(bt)) {
+				return bt
+			}
 		}
 		return &Term{Op: OpParam, Name: "fv:" + v.Name(), Obj: v, Fn: v.Parent()}
 	case *ssa.Const:
@@ -737,4 +750,22 @@ func rootLocals(t *Term, out map[ssa.Value]bool) {
 		}
 		return true
 	})
+}
+
+// termHasLoad: the term reads memory through a pointer, index or map (not a plain local/param value).
+func termHasLoad(t *Term) bool {
+	found := false
+	t.Walk(func(x *Term) bool {
+		switch x.Op {
+		case OpDeref, OpIndex, OpLookup:
+			found = true
+		case OpField:
+			// field of a struct reached through a pointer
+			if len(x.Args) == 1 && x.Args[0].Op == OpDeref {
+				found = true
+			}
+		}
+		return !found
+	})
+	return found
 }
